@@ -88,15 +88,14 @@ func corpusFor(prop, repoDir, verifDir string) []GenCorpus {
 		}
 	}
 	if prop == "C29" {
-		// path-struct API: the compressed repository schema and the key-type corpus (compressed), each generated
+		// path-struct API: the compressed repository schema and an OpenConfig-style key-type schema, each generated
 		// together with its path structs into one package
 		ct := all[1]
 		ct.PathStructs = true
-		vl := all[0]
-		vl.Pkg, vl.PathStructs = "vlistsc", true
-		vl.Flags = append(append([]string{}, vl.Flags...), "-compress_paths")
-		vl.Comment = "key-type corpus, compressed paths, with path structs"
-		all = []GenCorpus{ct, vl}
+		vp := GenCorpus{Pkg: "vpaths", Yang: []string{filepath.Join(verifDir, "schemas", "vpaths.yang")}, Path: filepath.Join(verifDir, "schemas"), PathStructs: true,
+			Flags:   append(append([]string{}, common...), "-compress_paths"),
+			Comment: "OpenConfig-style schema: nested lists, a three-key list with string / enumeration / union keys, a user-ordered list; compressed, with path structs"}
+		all = []GenCorpus{ct, vp}
 	}
 	// VERIF_GEN_ONLY=pkg[,pkg]: restrict the corpus (self-test runs and debugging)
 	if only := os.Getenv("VERIF_GEN_ONLY"); only != "" {
@@ -265,6 +264,8 @@ type listInst struct {
 	Multi    bool
 	YangPath string
 }
+
+var placeholderX = regexp.MustCompile(`\bX\b`)
 
 var docPathRe = regexp.MustCompile(`represents the (\S+) YANG schema element`)
 
@@ -589,7 +590,7 @@ func bindTemplates(tpl []tplSection, gc GenCorpus, goFile, pathFile string, prop
 						return l
 					}
 					arg := l[i+len(name)+1 : e]
-					l = l[:i] + "(" + replaceSymbol(body, "X", arg) + ")" + l[e+1:]
+					l = l[:i] + "(" + placeholderX.ReplaceAllLiteralString(body, arg) + ")" + l[e+1:]
 				}
 			}
 			n := 0
@@ -598,9 +599,9 @@ func bindTemplates(tpl []tplSection, gc GenCorpus, goFile, pathFile string, prop
 					continue
 				}
 				for _, l := range s.Lines {
-					l = strings.ReplaceAll(strings.ReplaceAll(l, "$R", rid.Name), "$M", M)
 					l = macro(l, "$RELPATHIS", strings.Join(rel, " && "))
 					l = macro(l, "$KEYSARE", keys)
+					l = strings.ReplaceAll(strings.ReplaceAll(l, "$R", rid.Name), "$M", M)
 					out.WriteString(l + "\n")
 				}
 				n++
